@@ -42,8 +42,9 @@ func evalServer(path string) int {
 				res, infra := ExecRun(sc, rf.Params, rf.Property, s, false)
 				same := false
 				if infra == nil && res != nil {
+					want := Violation{Property: rf.Property, Oracle: rf.Oracle, Detail: rf.Detail}.Class()
 					for _, v := range res.Violations[:min(1, len(res.Violations))] {
-						if v.Property == rf.Property && v.Oracle == rf.Oracle {
+						if v.Class() == want {
 							same = true
 						}
 					}
@@ -99,7 +100,7 @@ func parallelShrink(path string, budget time.Duration) {
 	}
 	var evs []*evaluator
 	for i := 0; i < n; i++ {
-		cmd := exec.Command(os.Args[0], "evalserver", path)
+		cmd := exec.Command(SimBinary(), "evalserver", path)
 		cmd.Env = append(os.Environ(), "GOMAXPROCS=1")
 		in, err1 := cmd.StdinPipe()
 		out, err2 := cmd.StdoutPipe()
@@ -264,8 +265,9 @@ func parallelShrink(path string, budget time.Duration) {
 		return
 	}
 	found := false
+	want := Violation{Property: rf.Property, Oracle: rf.Oracle, Detail: rf.Detail}.Class()
 	for _, v := range res.Violations {
-		if v.Property == rf.Property && v.Oracle == rf.Oracle {
+		if v.Class() == want {
 			rf.Detail = v.Detail
 			found = true
 			break
